@@ -18,10 +18,78 @@ def head_fields(head):
     return d
 
 
+def file_image_check(ctx, stats, lmq, exe, sess, m, typ, extra, iv, binf, base, problems):
+    """the WHOLE binary file against the extracted file model (coq/C04/FileImage.v: header, vocabulary with the modelled
+    MurmurHash64A, search structure of coq/C03/TrieImage.v / ProbingImage.v, vocabulary strings) -- byte for byte.  Only the
+    unquantised trie / array trie / probing types with a valid (non-mangled) vocabulary are laid out."""
+    if typ not in ("trie", "atrie", "probing") or len(m.grams) > 700 or getattr(m, "raw_arpa", None) is not None:
+        return
+    kd = {"trie": "T", "atrie": "A", "probing": "P"}[typ]
+    par = 0
+    for o in extra:
+        if o.startswith("bhiksha="):
+            par = int(o.split("=")[1])
+        if o.startswith("mult="):
+            par = o.split("=")[1]
+    if kd == "A" and not any(o.startswith("bhiksha=") for o in extra):
+        par = 22                     # Config's default pointer_bhiksha_bits (lm/config.cc)
+    if kd == "P" and not any(o.startswith("mult=") for o in extra):
+        par = "1.5"
+    cmd = [lmq, binf, typ, sess.vocab]
+    rc, out, err = vlib.sh(cmd, input=b"IDS\n", timeout=120)
+    res = out.split("\n")
+    stats["impl_runs"] += 1
+    if not res[0].startswith("loaded") or len(res) < 2:
+        return
+    ids = [int(x, 16) for x in res[1].split()]
+    if len(ids) < len(m.vocab) or len(set(ids[1:])) != len(ids) - 1:
+        return                       # two spellings with one id (<unk> variants): not a vocabulary the file model describes
+    ls = lc.mapped_session_lines(m, ids, mult=float(par) if kd == "P" else 1.5)
+    ls.append(lc.file_image_line(m, kd, par, iv))
+    mo = vlib.run_lines(exe, ls)
+    img = mo[-1]
+    if not img.startswith("file "):
+        return
+    mb = bytes.fromhex(img[5:])
+    fb = open(binf, "rb").read()
+    stats["file_images"] = stats.get("file_images", 0) + 1
+    stats["file_image_bytes"] = stats.get("file_image_bytes", 0) + len(mb)
+    if fb == mb:
+        return
+    first = next((i for i in range(max(len(mb), len(fb))) if i >= len(fb) or i >= len(mb) or fb[i] != mb[i]), 0)
+    what = ("the %s binary file differs from the file model at byte %d (file %d bytes: %s..., model %d bytes: %s...)"
+            % (typ, first, len(fb), fb[first:first + 16].hex(), len(mb), mb[first:first + 16].hex()))
+    # behavioural difference?  every n-gram of the model on the written file against the model's own answers
+    qs = lc.ngram_queries(m)
+    mk = "P" if kd == "P" else "T"
+    ls2 = ls[:-1] + ["S %s %d %s" % (mk, b, " ".join("%x" % ids[w] for w in ws)) for b, ws in qs]
+    mo2 = vlib.run_lines(exe, ls2)[len(ls) - 1:]
+    r2 = sess.run_impl(lmq, typ, qs, model_file=binf)
+    stats["impl_runs"] += 1
+    bad = None
+    if not r2["head"].startswith("loaded") or len(r2["lines"]) != len(qs):
+        bad = ("the written file does not load / answer: %s" % r2["head"][:100], None)
+    else:
+        for (b, ws), il, ml in zip(qs, r2["lines"], mo2):
+            try:
+                pi, pm = lc.parse_line(il, True), lc.parse_line(ml, False)
+            except Exception:
+                continue
+            if [(x["fs"], x["ff"]) for x in pi] != [(x["fs"], x["ff"]) for x in pm]:
+                bad = ("scores of the written file differ from the model on an n-gram of the model", (b, ws))
+                break
+    rq = dict(base, type=typ, include_vocab=iv, opts=extra, stream="file-image")
+    if bad:
+        problems.append(("spec:file-image:" + typ, what + "; " + bad[0], dict(rq, query=bad[1])))
+    else:
+        ctx.file_image_breaks = getattr(ctx, "file_image_breaks", []) + [("correspondence:file-image:" + typ, what, rq)]
+
+
 def run(ctx):
     pres = vlib.coq_prove("C04")
     ctx.set_proof(pres)
     lmq = vlib.compile_driver("lmq", DRV)
+    exe = vlib.ocaml_model("C01")
     rng = ctx.rng
     stats = {"impl_runs": 0, "binaries": 0, "scores": 0, "load_variants": 0}
     problems = []
@@ -72,6 +140,7 @@ def run(ctx):
                         os.remove(binf)
                         continue
                     stats["binaries"] += 1
+                    file_image_check(ctx, stats, lmq, exe, sess, m, typ, extra, iv, binf, base, problems)
                     methods = ["lazy", "populate", "populate_read", "read"]
                     if ctx.quick:
                         methods = [methods[rng.below(4)], methods[rng.below(4)]]
@@ -134,6 +203,8 @@ def run(ctx):
     for sig, what, rq in problems:
         ctx.report(sig, what, rq, True)
     if not problems:
+        for sig, what, rq in getattr(ctx, "file_image_breaks", [])[:5]:
+            ctx.report(sig, what, rq, False)
         ctx.report_proof(pres)
 
 
